@@ -47,6 +47,10 @@ NUM_TOKENS = [
 NEG_NUM_TOKENS = ["-1", "-0.5", "-3", "-2.5e1"]
 STAT_NAMES = ["rmse", "median", "mean", "std", "min", "max"]
 PALETTES = ["deep", "muted", "colorblind", "deep6", "pastel", "Set2"]
+# version strings another evo installation would have left behind (some sort
+# lexicographically above the current one, one is an empty torn write)
+OLD_VERSIONS = ["v1.12.0", "v1.30.2", "v1.31.0", "1.0", "", "v1.9.3",
+                "v1.4.0", "v1.40.0", "v1.31.10"]
 COLORS = ["#ff0000", "#00ff00", "#0000ff", "red", "blue", "black"]
 
 
@@ -158,7 +162,7 @@ def gen_initial_state(rng, dflt, version):
         del settings[k]
     if rng.random() < 0.5:
         settings["plot_old_obsolete_option"] = rng.choice([True, 3, "x"])
-    old = rng.choice(["v1.12.0", "v1.30.2", "v1.31.0", "1.0", ""])
+    old = rng.choice(OLD_VERSIONS)
     return {
         "state": "outdated",
         "files": {
